@@ -300,8 +300,10 @@ def extract(chk: Check):
         facts = c17_extract.facts(REPO)
         text = c17_extract.extract(REPO)
     except py2coq.Untranslatable as e:
-        chk.obligations.append({'name': 'extract:builders/base.py+legacy.py:self-attributes,finally', 'ok': False})
-        chk.broken('extract:builders/base.py:Builder', str(e))
+        part = getattr(e, 'part', None)
+        name = f'extract:{part}' if part else 'extract:builders/base.py+legacy.py:self-attributes,finally'
+        chk.obligations.append({'name': name, 'ok': False})
+        chk.broken(name, str(e))
         return None
     chk.obligations.append({'name': 'extract:builders/base.py+legacy.py:self-attributes,finally', 'ok': True})
     if chk.coq_compile_gen('C17_Extracted', text) is None:
